@@ -174,12 +174,30 @@ def date_configs(tier, seed):
     return [meta_config('dates', [], 0, fmtlists=lists, cands=cands, exts=(False, True) if tier != 'quick' else (False,))]
 
 
+ARGS_CTORS = {'C15': ['Integer', 'PositiveInteger', 'NegativeInteger', 'UnsignedInteger'],
+              'C16': ['Decimal', 'PositiveDecimal', 'NegativeDecimal', 'UnsignedDecimal'],
+              'C17': ['Numeral', 'Word', 'WordContains', 'WordStartsWith', 'WordEndsWith'], 'C19': ['Date']}
+
+
+def args_config():
+    return dict(name='meta-constructor-arguments', module='PregexMetaArgs', workers=4, invariants=['OutcomeTotal'],
+                cfg='SPECIFICATION Spec\nINVARIANT OutcomeTotal\nCHECK_DEADLOCK FALSE\n', defs={})
+
+
+def run_ctor_space(tier, seed, seeds, res, prop='C03', facets=('crash', 'compile', 'export'), ctors=None):
+    """The documented argument space of the meta constructors (used by C03 and, per family, by C15-C17 and C19)."""
+    run_generated([args_config()], 'harness.judge_metaargs.judge', {'prop': prop, 'facets': list(facets), 'ctors': ctors},
+                  seeds=(0,), mode='rr', batch=100, result=res)
+
+
 def generic(prop, configs_fn, rule, tier_arg=None, extra=None):
     tier, seed = tier_and_seed(tier_arg)
     t0 = time.time()
     res = GenResult()
     run_generated(configs_fn(tier, seed), 'harness.judge_meta.judge', {'prop': prop, 'facets': ['exact', 'matches', 'crash', 'compile', 'exc']},
                   seeds=(0,), mode='rr', batch=200, result=res)
+    if prop in ARGS_CTORS:
+        run_ctor_space(tier, seed, (0,), res, prop=prop, facets=('crash', 'exc', 'accepted', 'compile'), ctors=ARGS_CTORS[prop])
     extra_cov = {}
     if extra:
         extra_cov = extra(tier, seed, res)
